@@ -4,7 +4,7 @@
 From Coq Require Import ZArith List Bool Lia.
 Import ListNotations.
 Require Import Base.Py Base.ZList Gen.Gen_tags Model.Splice Model.Fam_flac
-  Proofs.Fam_flac_codec Proofs.Fam_flac_walk Proofs.Fam_flac_save Proofs.Fam_flac_thms Proofs.Fam_flac_final Proofs.Fam_flac_examples.
+  Proofs.Fam_flac_codec Proofs.Fam_flac_walk Proofs.Fam_flac_save Proofs.Fam_flac_thms Proofs.Fam_flac_final Proofs.Fam_flac_session Proofs.Fam_flac_examples.
 Open Scope Z_scope.
 
 Theorem C08_flac_delete_succeeds : forall f, flac_wf f = true -> exists f', flac_delete f = Ok f'.
@@ -39,6 +39,14 @@ Theorem C08_flac_size : forall f s f', flac_wf f = true -> flac_parse f = Ok s -
   zlen f' = zlen f - blocks_extent (filter is_vcb (fblocks s)) - blocks_extent (filter is_pad (fblocks s)) + 4.
 Proof. exact final_delete_size. Qed.
 Print Assumptions C08_flac_size.
+
+(* FLAC.delete through a live object (acts iff the OBJECT has a tags block, e.g. after add_tags on an untagged file) *)
+Theorem C08_flac_delete_live : forall f st bs0 f', flac_parse f = Ok st -> struct_wf st = true -> consistent bs0 st ->
+  flac_delete_obj f bs0 = Ok f' ->
+  exists st', flac_parse f' = Ok st' /\ struct_wf st' = true /\ same_foreign st st' /\ consistent (clear_tags bs0) st' /\
+    (existsb is_vcb bs0 = true -> flac_load f' = Ok None /\ flac_padding st' = 0).
+Proof. exact delete_obj_consistent. Qed.
+Print Assumptions C08_flac_delete_live.
 
 Theorem C08_flac_delete_twice : forall f f', flac_wf f = true -> flac_delete f = Ok f' -> flac_delete f' = Ok f'.
 Proof. exact delete_twice. Qed.
